@@ -293,6 +293,17 @@ def run(ctx):
         tag = "_c09Hs%di%d" % (ctx.seed, i)
         try:
             card = cards.CardGen(rng, tag, nbody=3, n_chains=(2, 2), res_per_slot=(1, 1), final_j2=(0, 0), res_j2_int=(0, 2), top_j2=(0,), models=("default",), decay_opts_prob=0.0).make()
+            stiff = i % 3 == 1
+            if stiff:
+                # a floated mass with a tight (PDG-like) Gaussian constraint: positive definite Hessian with condition number ~1e8..1e10
+                r0 = card["meta"]["resonances"][0]
+                fmass = [f["mass"] for f in card["meta"]["finals"]]
+                lo_ = sum(fmass[j] for j in r0["slot"])
+                if lo_ + 0.3 < r0["m0"] < card["meta"]["top"]["mass"] - (sum(fmass) - lo_) - 0.05:
+                    card["config"]["particle"][r0["name"]].update({"float": "m", "gauss_constr": {"m": 1e-5}})
+                else:
+                    stiff = False
+            ctx.covered("stiff_hessian", stiff)
             with quiet():
                 cfg = cards.load(card)
                 amp = cfg.get_amplitude()
@@ -330,7 +341,7 @@ def run(ctx):
             fcn.nll_grad(dict(zip(tv, x0)))
         H = 0.5 * (H + H.T)
         ev = np.linalg.eigvalsh(H)
-        if ev.min() <= 1e-6 * ev.max():
+        if ev.min() <= 1e-12 * ev.max() or (not stiff and ev.min() <= 1e-6 * ev.max()):
             ctx.count("hesse_skipped_not_positive_definite")
             continue
         ref = np.sqrt(np.diag(np.linalg.inv(H)))
